@@ -115,9 +115,15 @@ def process_period(mp_stream: models.MultiPeriodStream,
         int(period.start.total_seconds() * mf.representation.timescale))
     period.start = timecode_to_timedelta(start_tc, mf.representation.timescale)
     if data['duration'] in {"", "PT0S"}:
-        period.duration = stream.duration()
+        # by default the Period plays the stream from its start position
+        # to the end of the stream
+        period.duration = stream.duration() - period.start
     else:
         period.duration = from_isodatetime(data['duration'])
+    if period.start + period.duration > stream.duration():
+        return (
+            f"Period {data['pid']} ends after the end of stream " +
+            f"{stream.directory} ({stream.duration()})")
     if new_period:
         models.db.session.add(period)
     unused_tracks: set[int] = set()
